@@ -3,14 +3,23 @@ namespace Yaclib.CoSharedMutex
 
 set_option maxHeartbeats 4000000 in
 theorem inv_step_5 {cfg s l s'} (hi : Inv cfg s) (hs : Step s l s') (hg : grpOf l = 5) : Inv cfg s' := by
-  cases hi
   cases hs with
-  | trCasOk c r h hW hR => sm_dbg [List.count_le_length, List.length_eq_zero_iff, length_pos_of_ne_nil]
-  | trCasFail c r h => sm_dbg [List.count_le_length, List.length_eq_zero_iff, length_pos_of_ne_nil]
+  | trCasOk c r h hW hR =>
+      have hpwn : s.pw = .none := by
+        have h5 := hi.j5
+        cases hp : s.pw.isSome
+        · exact PW.eq_none_of_isSome hp
+        · rw [hW, hp] at h5; simp at h5 <;> omega
+      cases hi
+      sm_auto [List.count_le_length]
+  | trCasFail c r h =>
+      cases hi
+      sm_auto [List.count_le_length]
   | twLoad c sawZero h ht ho =>
+      cases hi
       cases sawZero
-      · by_cases ht' : curOp s c = .tryWr <;> simp only [doTwLoad, failW, ht', Bool.false_eq_true, ↓reduceIte] <;> sm_dbg [List.count_le_length, List.length_eq_zero_iff, length_pos_of_ne_nil]
-      · simp only [doTwLoad, ↓reduceIte]; sm_dbg [List.count_le_length, List.length_eq_zero_iff, length_pos_of_ne_nil]
+      · by_cases ht' : curOp s c = .tryWr <;> simp only [doTwLoad, failW, ht', Bool.false_eq_true, ↓reduceIte] <;> sm_auto [List.count_le_length]
+      · simp only [doTwLoad, ↓reduceIte]; sm_auto [List.count_le_length]
   | _ => simp [grpOf] at hg
 
 end Yaclib.CoSharedMutex
